@@ -12,7 +12,8 @@
    (C03_merged_parameters_are_layered).  Also proved: result uniqueness (state / fuel / order
    independence of successful results), closedness, the error for a missing key. *)
 From RV Require Import Model.Yaml Model.Interp Proofs.WfFacts Proofs.InterpFacts Proofs.StateIndep Proofs.Mono Proofs.RefFacts
-     Proofs.YamlFacts Proofs.PathFacts Proofs.Refinement Proofs.Layered.
+     Proofs.YamlFacts Proofs.PathFacts Proofs.Refinement Proofs.Layered Proofs.OrderIndep.
+From Coq Require Import Permutation.
 
 (** A parameter whose whole value is a reference ${k} to a top-level parameter renders to exactly
     what k's own value renders to -- same kind, same data -- whatever the state (position in
@@ -78,6 +79,27 @@ Theorem C03_fuel_irrelevant :
   forall root f f' v st r, f <= f' -> interp f root v st = r -> r <> OutOfFuel -> interp f' root v st = r.
 Proof. exact interp_fuel_mono. Qed.
 Eval cbv in "ASSUMPTIONS-OF C03_fuel_irrelevant"%string. Print Assumptions C03_fuel_irrelevant.
+
+(** "The result does not depend on the order in which parameters are written": the interpreter
+    reads the parameters only through key lookup (two parameter mappings with the same lookup
+    function render every value alike, at every state and fuel) ... *)
+Theorem C03_parameters_are_read_through_lookup_only :
+  forall root root', (forall k, m_get (VStr k) root = m_get (VStr k) root') ->
+    forall f v st, interp f root v st = interp f root' v st.
+Proof. exact interp_root_ext. Qed.
+Eval cbv in "ASSUMPTIONS-OF C03_parameters_are_read_through_lookup_only"%string. Print Assumptions C03_parameters_are_read_through_lookup_only.
+
+(** ... so rendering the same parameters written in any other order yields the rendered
+    parameters in that order, every key holding the same value (references included: what a
+    reference sees is the final value at its path, wherever the target is written). *)
+Theorem C03_result_does_not_depend_on_the_order_of_parameters :
+  forall root, wf (VMap root) -> forall f root' r,
+    Permutation root root' ->
+    render_with_self f (VMap root) = Ok r ->
+    exists m m', r = VMap m /\ render_with_self f (VMap root') = Ok (VMap m') /\
+                 Permutation m m' /\ forall k, m_get k m = m_get k m'.
+Proof. exact render_is_order_independent. Qed.
+Eval cbv in "ASSUMPTIONS-OF C03_result_does_not_depend_on_the_order_of_parameters"%string. Print Assumptions C03_result_does_not_depend_on_the_order_of_parameters.
 
 (** Non-vacuity: a reference into a three-layer mapping defined after the referencing key, and a
     nested path. *)
